@@ -98,7 +98,8 @@ SinkPlans(n, v) ==
 \* streams for one-shot decoders: the reference encodings incl. UPER, XER text when writable
 AllStreams(n, v) ==
   {<<"DER", Enc("DER", TRef(n), v)>>, <<"OER", Enc("OER", TRef(n), v)>>, <<"UPER", Enc("UPER", TRef(n), v)>>,
-   <<"DER", BerIndef(n, v)>>}
+   <<"DER", BerIndef(n, v)>>, <<"DER", BerVar(Env, TRef(n), v, [Canon EXCEPT !.real = "decimal-long"])>>,
+   <<"DER", BerVar(Env, TRef(n), v, [Canon EXCEPT !.real = "long-mantissa"])>>}
   \cup (IF XerWritable(Env, TRef(n), v) THEN {<<"CXER", Ser(XerTokens(Env, n, TRef(n), v), "canon")>>} ELSE {})
 Byte(x) == x % 256
 Interesting(x) == (IF MutDense THEN {0, 1, 127, 128, 129, 255, Byte(x + 1), Byte(x + 255), Byte(x + 128)}
@@ -110,9 +111,12 @@ Mutations(b) ==
   \cup UNION {{<<"setbyte", [b EXCEPT ![i] = x]>> : x \in Interesting(b[i])} : i \in Positions(b)}
   \cup (IF Len(b) >= 2 THEN {<<"dup-tail", b \o SubSeq(b, Len(b) \div 2 + 1, Len(b))>>, <<"drop-byte", SubSeq(b, 1, Len(b) \div 2) \o SubSeq(b, Len(b) \div 2 + 2, Len(b))>>} ELSE {})
   \cup {<<"append-ff", b \o <<255, 255, 255, 255>>>>}
+\* two histories per mutant: whatever the decoder left behind is printed, validated and FREED (the ledger is checked
+\* also when the decoder failed); and what it accepted is re-encoded, decoded again and compared
 MutPlans(n, v) ==
-  UNION {{<<OpDecodeAny(1, st[1], m[2], m[1]), OpPrint(1), OpCheck(1), OpEncode(1, "DER"), OpDecode(2, "DER"), OpCompare(1, 2),
-           OpFree(1), OpFree(2)>> : m \in Mutations(st[2])} : st \in AllStreams(n, v)}
+  UNION {{<<OpDecodeAny(1, st[1], m[2], m[1]), OpPrint(1), OpCheck(1), OpFree(1)>> : m \in Mutations(st[2])} : st \in AllStreams(n, v)}
+  \cup UNION {{<<OpDecodeAny(1, st[1], m[2], m[1]), OpEncode(1, "DER"), OpDecode(2, "DER"), OpCompare(1, 2),
+                 OpFree(1), OpFree(2)>> : m \in Mutations(st[2])} : st \in AllStreams(n, v)}
 CutSample(b) == IF Len(b) <= 48 THEN 1..(Len(b) - 1)
                 ELSE {c \in {1, 2, Len(b) \div 4, Len(b) \div 3, Len(b) \div 2, (2 * Len(b)) \div 3, (3 * Len(b)) \div 4, Len(b) - 2, Len(b) - 1} : c >= 1 /\ c < Len(b)}
 LifePlans(n, v) ==
